@@ -30,17 +30,18 @@ def make(cfg):
     if cfg.get('np_capacity'):
         import numpy as np
         k = np.int64(k)        # a capacity that is an integer, but not a Python int
+    pos = cfg.get('positional_ctor')      # arguments given positionally, in the documented order
     if c == 'batch':
-        return BatchStorage(store_targets=stt)
+        return BatchStorage(stt) if pos else BatchStorage(store_targets=stt)
     if c == 'interval':
-        return IntervalStorage(size=k, store_targets=stt)
+        return IntervalStorage(k, stt) if pos else IntervalStorage(size=k, store_targets=stt)
     if c == 'sequence':
-        return SequenceStorage(store_targets=stt)
+        return SequenceStorage(stt) if pos else SequenceStorage(store_targets=stt)
     if c == 'uniform':
-        return UniformReservoirStorage(size=k, store_targets=stt)
+        return UniformReservoirStorage(k, stt) if pos else UniformReservoirStorage(size=k, store_targets=stt)
     if c == 'geometric':
         p = cfg.get('p')
-        return GeometricReservoirStorage(size=k, store_targets=stt, constant_probability=p)
+        return GeometricReservoirStorage(k, p, stt) if pos else GeometricReservoirStorage(size=k, store_targets=stt, constant_probability=p)
     raise ValueError(c)
 
 
@@ -147,6 +148,7 @@ def run_enum(case):
 def configs(draw):
     c = draw(st.sampled_from(CLASSES))
     cfg = {'cls': c, 'k': draw(st.integers(1, 6)), 'st': draw(st.booleans())}
+    cfg['positional_ctor'] = draw(st.booleans())
     if draw(st.integers(0, 2)) == 0:
         cfg['none_targets'] = draw(st.lists(st.integers(0, 1), min_size=1, max_size=5))   # pattern of arrivals without a target
     if c == 'geometric':
@@ -233,7 +235,7 @@ def run(ctx):
                     ps = [None, 0, 1, 1 / 3, 2 / 3] if c == 'geometric' else [None]
                     for p in ps:
                         extra = 3 if c != 'uniform' else 2
-                        cfg = {'cls': c, 'k': k, 'st': stt}
+                        cfg = {'cls': c, 'k': k, 'st': stt, 'positional_ctor': (k + int(stt)) % 2 == 0}
                         if c == 'geometric':
                             cfg['p'] = p
                         if stt and p in (None, 1):
